@@ -462,6 +462,11 @@ class Merger:
             return self._merge_simple_lists(lhs, rhs, path, node_coord)
 
         # No RHS list
+        if not isinstance(lhs, CommentedSeq):
+            raise MergeException(
+                "Impossible to add Array data to non-Array destination.", path)
+        if self.config.array_merge_mode(node_coord) is ArrayMergeOpts.RIGHT:
+            return rhs
         return lhs
 
     def _merge_sets(
